@@ -7,84 +7,102 @@
 (* ordinary calls of the same thread: operations are keyed by a call id `c`, emits by `x`, not by thread.                      *)
 (*   Begin                                                                                                                     *)
 (*   Call{t, c, op: connect|disconnect|disconnectAll|count|sethandler, id, g, w, on}   Ret{t, c, op, id, n}                     *)
-(*       ScopedConnection operations are logged as what they must amount to: scoped connect = connect; destructor / reset() /   *)
-(*       the left side of a move-assignment = disconnect(id held) (id 0 = holds nothing: no effect); release() = nothing        *)
+(*       ScopedConnection (handle h): sconn = connect + own the id; sdrop (destructor) / sreset (reset()) = disconnect what is   *)
+(*       owned; srel (release()) = give up ownership, return the id, NO disconnect now or later; smove (h2 = std::move(h)) =     *)
+(*       disconnect what h2 owned, h2 owns what h owned, h owns nothing                                                          *)
 (*   EmitCall{t, x}  Slot{t, x, g | w, thr}  Handler{t, x}  EmitRet{t, x}      g: tag given at connect (w: weak target);        *)
 (*                                                                             thr = 1: the slot body throws after logging      *)
 (*   Expire{w}   the weak target w has been destroyed          End{outcome}                                                     *)
 (* Accepted and reported: <<"OBS", "CallAfterDisconnect", line>> - a slot ran although a disconnect() of its id had already       *)
 (* RETURNED (snapshot semantics: the emit had taken its snapshot before).                                                       *)
 EXTENDS TraceBase, FiniteSets, Integers
-VARIABLES slots, nid, alive, handler, pend, em, gone
-vars == <<l, slots, nid, alive, handler, pend, em, gone>>
+VARIABLES slots, nid, alive, handler, pend, em, gone, own
+vars == <<l, slots, nid, alive, handler, pend, em, gone, own>>
 CallIds == {Log[i].c : i \in {j \in 1..Len(Log) : "c" \in DOMAIN Log[j]}}
 EmitIds == {Log[i].x : i \in {j \in 1..Len(Log) : "x" \in DOMAIN Log[j]}}
 Weak == {Log[i].w : i \in {j \in 1..Len(Log) : "w" \in DOMAIN Log[j]}} \ {0}
-Idle == [st |-> "idle", op |-> "-", id |-> 0, g |-> 0, w |-> 0, n |-> 0, on |-> FALSE]
+Hs == ({Log[i].h : i \in {j \in 1..Len(Log) : "h" \in DOMAIN Log[j]}} \cup {Log[i].h2 : i \in {j \in 1..Len(Log) : "h2" \in DOMAIN Log[j]}}) \ {""}
+Own0 == [h \in Hs |-> 0]
+Idle == [st |-> "idle", op |-> "-", id |-> 0, g |-> 0, w |-> 0, n |-> 0, on |-> FALSE, rm |-> {}, h |-> "", h2 |-> ""]
 NoEm == [st |-> "idle", snap |-> <<>>, pos |-> 0, saw |-> FALSE, pruned |-> FALSE, overlap |-> FALSE, h |-> FALSE, hs |-> FALSE, owe |-> FALSE]
 Fresh == [c \in CallIds |-> Idle]
 FreshEm == [x \in EmitIds |-> NoEm]
-Init == l = 1 /\ slots = <<>> /\ nid = 1 /\ alive = Weak /\ handler = FALSE /\ pend = Fresh /\ em = FreshEm /\ gone = {}
-Clean == slots' = <<>> /\ nid' = 1 /\ alive' = Weak /\ handler' = FALSE /\ pend' = Fresh /\ em' = FreshEm /\ gone' = {}
+Init == l = 1 /\ slots = <<>> /\ nid = 1 /\ alive = Weak /\ handler = FALSE /\ pend = Fresh /\ em = FreshEm /\ gone = {} /\ own = Own0
+Clean == slots' = <<>> /\ nid' = 1 /\ alive' = Weak /\ handler' = FALSE /\ pend' = Fresh /\ em' = FreshEm /\ gone' = {} /\ own' = Own0
 EvBegin == IsEv("Begin") /\ Clean
 EvReset == IsEv("Reset") /\ Clean
 Active == {x \in EmitIds : em[x].st \in {"called", "iter"}}
 Expired(sl) == sl.w # 0 /\ sl.w \notin alive
 
 EvCall == /\ IsEv("Call") /\ pend[Ev.c].st = "idle"
-          /\ pend' = [pend EXCEPT ![Ev.c] = [st |-> "called", op |-> Ev.op, id |-> Fld("id", 0), g |-> Fld("g", 0), w |-> Fld("w", 0), n |-> 0, on |-> Fld("on", 0) = 1]]
-          /\ UNCHANGED <<slots, nid, alive, handler, em, gone>>
+          /\ pend' = [pend EXCEPT ![Ev.c] = [st |-> "called", op |-> Ev.op, id |-> Fld("id", 0), g |-> Fld("g", 0), w |-> Fld("w", 0), n |-> 0, on |-> Fld("on", 0) = 1, rm |-> {}, h |-> Fld("h", ""), h2 |-> Fld("h2", "")]]
+          /\ UNCHANGED <<slots, nid, alive, handler, em, gone, own>>
 Lin(c) ==
-    /\ pend[c].st = "called" /\ UNCHANGED <<l, alive, em, gone>>
+    /\ pend[c].st = "called" /\ UNCHANGED <<l, alive, em, gone>>   \* (own: per case)
     /\ LET p == pend[c] IN
-       CASE p.op = "connect" -> /\ slots' = Append(slots, [id |-> nid, g |-> p.g, w |-> p.w]) /\ nid' = nid + 1
-                                /\ pend' = [pend EXCEPT ![c] = [p EXCEPT !.st = "lin", !.id = nid]] /\ UNCHANGED handler
+       CASE p.op \in {"connect", "sconn"} ->
+                /\ slots' = Append(slots, [id |-> nid, g |-> p.g, w |-> p.w]) /\ nid' = nid + 1
+                /\ pend' = [pend EXCEPT ![c] = [p EXCEPT !.st = "lin", !.id = nid]] /\ UNCHANGED handler
+                /\ own' = IF p.op = "sconn" THEN [own EXCEPT ![p.h] = nid] ELSE own       \* a scoped connection owns its id
+         \* ScopedConnection: destructor and reset() disconnect what is owned; release() only gives it up (and returns it);
+         \* move-assignment disconnects what the target owned and transfers ownership
+         [] p.op \in {"sdrop", "sreset"} ->
+                /\ slots' = SelectSeq(slots, LAMBDA sl : sl.id # own[p.h]) /\ own' = [own EXCEPT ![p.h] = 0]
+                /\ pend' = [pend EXCEPT ![c] = [p EXCEPT !.st = "lin", !.rm = {own[p.h]} \ {0}, !.id = 0]] /\ UNCHANGED <<nid, handler>>
+         [] p.op = "srel" ->
+                /\ own' = [own EXCEPT ![p.h] = 0] /\ pend' = [pend EXCEPT ![c] = [p EXCEPT !.st = "lin", !.id = own[p.h]]]
+                /\ UNCHANGED <<slots, nid, handler>>
+         [] p.op = "smove" ->
+                /\ slots' = SelectSeq(slots, LAMBDA sl : sl.id # own[p.h2]) /\ own' = [own EXCEPT ![p.h2] = own[p.h], ![p.h] = 0]
+                /\ pend' = [pend EXCEPT ![c] = [p EXCEPT !.st = "lin", !.rm = {own[p.h2]} \ {0}, !.id = own[p.h]]] /\ UNCHANGED <<nid, handler>>
          [] p.op = "disconnect" -> /\ slots' = SelectSeq(slots, LAMBDA sl : sl.id # p.id)
-                                   /\ pend' = [pend EXCEPT ![c].st = "lin"] /\ UNCHANGED <<nid, handler>>
-         [] p.op = "disconnectAll" -> /\ slots' = <<>> /\ pend' = [pend EXCEPT ![c] = [p EXCEPT !.st = "lin", !.n = Len(slots)]]
-                                      /\ UNCHANGED <<nid, handler>>
-         [] p.op = "count" -> pend' = [pend EXCEPT ![c] = [p EXCEPT !.st = "lin", !.n = Len(slots)]] /\ UNCHANGED <<slots, nid, handler>>
-         [] p.op = "sethandler" -> handler' = p.on /\ pend' = [pend EXCEPT ![c].st = "lin"] /\ UNCHANGED <<slots, nid>>
+                                   /\ pend' = [pend EXCEPT ![c] = [p EXCEPT !.st = "lin", !.rm = {p.id}]] /\ UNCHANGED <<nid, handler, own>>
+         [] p.op = "disconnectAll" -> /\ slots' = <<>>
+                                      /\ pend' = [pend EXCEPT ![c] = [p EXCEPT !.st = "lin", !.rm = {slots[i].id : i \in 1..Len(slots)}]]
+                                      /\ UNCHANGED <<nid, handler, own>>
+         [] p.op = "count" -> pend' = [pend EXCEPT ![c] = [p EXCEPT !.st = "lin", !.n = Len(slots)]] /\ UNCHANGED <<slots, nid, handler, own>>
+         [] p.op = "sethandler" -> handler' = p.on /\ pend' = [pend EXCEPT ![c].st = "lin"] /\ UNCHANGED <<slots, nid, own>>
          [] OTHER -> FALSE
 EvRet == /\ IsEv("Ret") /\ pend[Ev.c].st = "lin" /\ pend[Ev.c].op = Ev.op
-         /\ (Ev.op = "connect") => (Ev.id = pend[Ev.c].id /\ Ev.id # 0)
+         /\ (Ev.op \in {"connect", "sconn"}) => (Ev.id = pend[Ev.c].id /\ Ev.id # 0)
+         /\ (Ev.op \in {"srel", "sreset", "smove"}) => Ev.id = pend[Ev.c].id     \* release() returns the id; id() afterwards
          /\ (Ev.op = "count") => Ev.n = pend[Ev.c].n
-         /\ gone' = IF Ev.op = "disconnect" THEN gone \cup {pend[Ev.c].id} ELSE gone
-         /\ pend' = [pend EXCEPT ![Ev.c] = Idle] /\ UNCHANGED <<slots, nid, alive, handler, em>>
-EvExpire == IsEv("Expire") /\ alive' = alive \ {Ev.w} /\ UNCHANGED <<slots, nid, handler, pend, em, gone>>
+         /\ gone' = gone \cup pend[Ev.c].rm        \* ids whose disconnect / disconnectAll has RETURNED
+         /\ pend' = [pend EXCEPT ![Ev.c] = Idle] /\ UNCHANGED <<slots, nid, alive, handler, em, own>>
+EvExpire == IsEv("Expire") /\ alive' = alive \ {Ev.w} /\ UNCHANGED <<slots, nid, handler, pend, em, gone, own>>
 
 \* ---- emit
 EvEmitCall == /\ IsEv("EmitCall") /\ em[Ev.x].st = "idle"
               /\ em' = [y \in EmitIds |-> IF y = Ev.x THEN [NoEm EXCEPT !.st = "called", !.overlap = Active # {}]
                                           ELSE IF y \in Active THEN [em[y] EXCEPT !.overlap = TRUE] ELSE em[y]]
-              /\ UNCHANGED <<slots, nid, alive, handler, pend, gone>>
+              /\ UNCHANGED <<slots, nid, alive, handler, pend, gone, own>>
 Snap(x) == /\ em[x].st = "called" /\ em' = [em EXCEPT ![x] = [@ EXCEPT !.st = "iter", !.snap = slots]]
-           /\ UNCHANGED <<l, slots, nid, alive, handler, pend, gone>>
+           /\ UNCHANGED <<l, slots, nid, alive, handler, pend, gone, own>>
 \* the handler is loaded right after the list (a second atomic load)
 SnapH(x) == /\ em[x].st = "iter" /\ ~em[x].hs /\ em[x].pos = 0 /\ em' = [em EXCEPT ![x] = [@ EXCEPT !.hs = TRUE, !.h = handler]]
-            /\ UNCHANGED <<l, slots, nid, alive, handler, pend, gone>>
+            /\ UNCHANGED <<l, slots, nid, alive, handler, pend, gone, own>>
 \* an expired weak slot is passed over at its turn
 Skip(x) == /\ em[x].st = "iter" /\ em[x].hs /\ ~em[x].owe /\ em[x].pos < Len(em[x].snap) /\ Expired(em[x].snap[em[x].pos + 1])
            /\ em' = [em EXCEPT ![x] = [@ EXCEPT !.pos = @ + 1, !.saw = TRUE]]
-           /\ UNCHANGED <<l, slots, nid, alive, handler, pend, gone>>
+           /\ UNCHANGED <<l, slots, nid, alive, handler, pend, gone, own>>
 EvSlot == /\ IsEv("Slot") /\ em[Ev.x].st = "iter" /\ em[Ev.x].hs /\ ~em[Ev.x].owe /\ em[Ev.x].pos < Len(em[Ev.x].snap)
           /\ LET sl == em[Ev.x].snap[em[Ev.x].pos + 1] IN
              /\ (IF Fld("w", 0) # 0 THEN sl.w = Ev.w ELSE sl.g = Ev.g) /\ ~Expired(sl)
              /\ (sl.id \in gone) => PrintT(<<"OBS", "CallAfterDisconnect", l>>)
           /\ em' = [em EXCEPT ![Ev.x] = [@ EXCEPT !.pos = @ + 1, !.owe = (Fld("thr", 0) = 1 /\ em[Ev.x].h)]]
-          /\ UNCHANGED <<slots, nid, alive, handler, pend, gone>>
+          /\ UNCHANGED <<slots, nid, alive, handler, pend, gone, own>>
 EvHandler == /\ IsEv("Handler") /\ em[Ev.x].st = "iter" /\ em[Ev.x].owe /\ em' = [em EXCEPT ![Ev.x].owe = FALSE]
-             /\ UNCHANGED <<slots, nid, alive, handler, pend, gone>>
+             /\ UNCHANGED <<slots, nid, alive, handler, pend, gone, own>>
 \* the emit that met an expired slot removes the expired slots (unless another emit is pruning at the same time)
 Prune(x) == /\ em[x].st = "iter" /\ em[x].hs /\ ~em[x].owe /\ em[x].pos = Len(em[x].snap) /\ em[x].saw /\ ~em[x].pruned
             /\ slots' = SelectSeq(slots, LAMBDA sl : ~Expired(sl)) /\ em' = [em EXCEPT ![x].pruned = TRUE]
-            /\ UNCHANGED <<l, nid, alive, handler, pend, gone>>
+            /\ UNCHANGED <<l, nid, alive, handler, pend, gone, own>>
 EvEmitRet == /\ IsEv("EmitRet") /\ em[Ev.x].st = "iter" /\ ~em[Ev.x].owe /\ em[Ev.x].pos = Len(em[Ev.x].snap)
              /\ (em[Ev.x].saw /\ ~em[Ev.x].overlap) => em[Ev.x].pruned
              /\ em' = [em EXCEPT ![Ev.x].st = "done"]
-             /\ UNCHANGED <<slots, nid, alive, handler, pend, gone>>
+             /\ UNCHANGED <<slots, nid, alive, handler, pend, gone, own>>
 EvEnd == /\ IsEv("End") /\ Ev.outcome = "done" /\ Active = {} /\ \A c \in CallIds : pend[c].st = "idle"
-         /\ UNCHANGED <<slots, nid, alive, handler, pend, em, gone>>
+         /\ UNCHANGED <<slots, nid, alive, handler, pend, em, gone, own>>
 Next == EvBegin \/ EvReset \/ EvCall \/ EvRet \/ EvExpire \/ EvEmitCall \/ EvSlot \/ EvHandler \/ EvEmitRet \/ EvEnd
         \/ \E c \in CallIds : Lin(c)
         \/ \E x \in EmitIds : Snap(x) \/ SnapH(x) \/ Skip(x) \/ Prune(x)
